@@ -172,3 +172,24 @@ func mustJSON(v interface{}) []byte {
 	}
 	return b
 }
+
+// expectCase is the replay format of hand-written witnesses (fixed findings):
+// the program must compile and, evaluated on Input, produce the outcome Want
+// (rendered as port.Outcome.String(); WantPrefix relaxes that to a prefix).
+type expectCase struct {
+	Text       string `json:"text"`
+	Input      string `json:"input"`
+	Want       string `json:"want,omitempty"`
+	WantPrefix string `json:"want_prefix,omitempty"`
+	Twice      bool   `json:"twice,omitempty"` // evaluate the same Expr twice; both outcomes must match
+}
+
+func init() {
+	registerReplay("Expect", func(raw json.RawMessage) string {
+		var c expectCase
+		if err := json.Unmarshal(raw, &c); err != nil {
+			return "bad case: " + err.Error()
+		}
+		return runExpect(c)
+	})
+}
